@@ -178,6 +178,7 @@ type expCase struct {
 	Fam, Proto string
 	Opts       []Opt
 	Env        [10]string
+	Empty      [10]bool // variable set to the empty string (provides nothing, like an unset one)
 	Slow       bool
 	Retry      bool
 	Note       string
@@ -186,7 +187,7 @@ type expCase struct {
 func (c *expCase) scenario(kind string) Scenario {
 	sc := Scenario{Kind: kind, Fam: c.Fam, Proto: c.Proto, Opts: c.Opts, Env: map[string]string{}, Slow: c.Slow, Retry: c.Retry}
 	for i, v := range c.Env {
-		if v != "" {
+		if v != "" || c.Empty[i] {
 			sc.Env[envName(c.Fam, i)] = v
 		}
 	}
@@ -280,7 +281,7 @@ func (c *expCase) term(res *Result) (string, map[string]any) {
 	term := vgen.App("CExp", famCoq[c.Fam], protoCoq[c.Proto], vgen.List(opts), vgen.App("Build_env", ev...), obs)
 	env := map[string]string{}
 	for i, v := range c.Env {
-		if v != "" {
+		if v != "" || c.Empty[i] {
 			env[envName(c.Fam, i)] = v
 		}
 	}
@@ -610,6 +611,18 @@ func buildCase(r *vgen.Rand, fam, proto, focus string, combo [3]int, short int, 
 		}
 		c.Note += " +INSECURE-variables"
 	}
+	if r.Chance(1, 8) { // variables that are SET TO THE EMPTY STRING: they provide nothing
+		n := 0
+		for i := 0; i < 8; i++ {
+			if c.Env[i] == "" && r.Bool() {
+				c.Empty[i] = true
+				n++
+			}
+		}
+		if n > 0 {
+			c.Note += " +set-but-empty-variables"
+		}
+	}
 	if !c.Slow && focus != "endpoint" && r.Chance(1, 4) {
 		c.Retry = true // the exporter's default retry policy stays on
 	}
@@ -684,6 +697,25 @@ func corpusExp() []*expCase {
 			add(fam, proto, "padded generic timeout over nothing", map[int]string{genEp: "http://{C}", genTmo: " 3000 "})
 			add(fam, proto, "padded specific compression over generic none", map[int]string{genEp: "http://{C}", specComp: " gzip", genComp: "none"})
 			add(fam, proto, "padded specific endpoint over a generic one", map[int]string{specEp: "\thttp://{B}", genEp: "http://{C}"})
+			for _, ec := range []struct {
+				note  string
+				env   map[int]string
+				empty []int
+			}{
+				{"empty specific endpoint over a valid generic one", map[int]string{genEp: "http://{C}"}, []int{specEp}},
+				{"empty generic endpoint under a valid specific one", map[int]string{specEp: "http://{B}"}, []int{genEp}},
+				{"empty specific compression over generic gzip", map[int]string{genEp: "http://{C}", genComp: "gzip"}, []int{specComp}},
+				{"empty generic compression under specific gzip", map[int]string{genEp: "http://{C}", specComp: "gzip"}, []int{genComp}},
+				{"empty specific headers over generic headers", map[int]string{genEp: "http://{C}", genHdr: "x-c20-g=gen"}, []int{specHdr}},
+				{"empty specific timeout over a generic one", map[int]string{genEp: "http://{C}", genTmo: "3000"}, []int{specTmo}},
+				{"every variable set to the empty string", map[int]string{}, []int{genEp, specEp, genHdr, specHdr, genComp, specComp, genTmo, specTmo}},
+				{"every specific variable empty, every generic one valid", map[int]string{genEp: "http://{C}", genHdr: "x-c20-g=gen", genComp: "gzip", genTmo: "3000"}, []int{specEp, specHdr, specComp, specTmo}},
+			} {
+				add(fam, proto, ec.note, ec.env)
+				for _, i := range ec.empty {
+					out[len(out)-1].Empty[i] = true
+				}
+			}
 			add(fam, proto, "upper-case scheme", map[int]string{specEp: "HTTP://{B}", genEp: "http://{C}"})
 			// transport security follows the deciding endpoint source (plain-text collectors: TLS reaches nobody)
 			out = append(out,
